@@ -42,6 +42,7 @@ if __name__ == '__main__':
     sys.path.insert(0, os.path.dirname(os.path.dirname(os.path.abspath(__file__))))
 import common
 from common import REPO
+import errwrap      # families `errwrap` / `errbuild`: errors.py rethrow_point / api_entry against AY.Model.ErrWrap (driver op errwrap)
 
 PY = '/venv/bin/python'
 NSPREFIX = 'awesomeyaml.eval_node_namespace.'
@@ -1088,7 +1089,7 @@ class C12(Prop):
              'filename': None, 'rpos': 1, 'feats': ['fstr:sq']},
             {'kind': 'fstr', 'cfg': [['a', 5]], 'derived': [], 'syms': [], 'form': 'explicit', 'scalar': "it's {a}", 'ref_lit': 'f"it\'s {a}"',
              'filename': None, 'rpos': 0, 'feats': ['fstr:explicit']},
-        ]
+        ] + errwrap.corpus()
 
     def gen_cases(self, rng, n, tier):
         clean, known = [], []
@@ -1108,10 +1109,15 @@ class C12(Prop):
         # witnesses of the one recorded finding class (D26), at the end so that new violations are triaged first
         known.append(gen_resolve(rng, known='class-body-config-name'))
         known.append(gen_prog(rng, tier, known='class-body-config-name'))
-        return clean + known
+        r2 = random.Random(rng.random())      # drawn after the others: those stay as they were
+        return clean + errwrap.gen_cases(r2, max(1, n // 3)) + known
 
     # -- implementation ----------------------------------------------------------------------
     def impl(self, case):
+        if case['kind'] in errwrap.KINDS:
+            io = errwrap.impl(case)
+            self.cache[json.dumps(case, sort_keys=True, default=str)] = io
+            return io
         res = self.w.run(job_of(case))
         if 'worker_died' in res['status']:
             return {'harness_error': f'the worker process died twice outside a case (rc {res["status"]["worker_died"]})'}
@@ -1131,6 +1137,8 @@ class C12(Prop):
 
     # -- oracle ------------------------------------------------------------------------------
     def oracle(self, case, io, ans):
+        if case['kind'] in errwrap.KINDS:
+            return errwrap.oracle(case, io)
         st = io['status']
         if st != {'exit': 0}:
             done = sum(1 for b in io['builds'] if b['impl'] is not None)
@@ -1159,6 +1167,9 @@ class C12(Prop):
 
     # -- model -------------------------------------------------------------------------------
     def model_requests(self, case):
+        if case['kind'] in errwrap.KINDS:
+            io = self.cache.get(json.dumps(case, sort_keys=True, default=str))
+            return errwrap.requests(case, io if io is not None else errwrap.impl(case))
         return self.reqs_for(case, self.cache.get(json.dumps(case, sort_keys=True, default=str)))
 
     def model_obs(self, case, answers):
@@ -1201,6 +1212,8 @@ class C12(Prop):
         return reqs
 
     def compare(self, case, io, answers):
+        if case['kind'] in errwrap.KINDS:
+            return errwrap.compare(case, io, answers)
         if not self.complete(io):
             return None      # a crash is the oracle's business
         builds = builds_of(case)
@@ -1325,6 +1338,8 @@ class C12(Prop):
 
     # -- bookkeeping -------------------------------------------------------------------------
     def nontrivial(self, case, io):
+        if case['kind'] in errwrap.KINDS:
+            return True
         for b, o in zip(builds_of(case), io['builds']):
             if o['impl'] and any(k == 'cfg' for _, k in o['impl'].get('missing', [])):
                 return True
@@ -1333,6 +1348,8 @@ class C12(Prop):
         return False
 
     def features(self, case, io):
+        if case['kind'] in errwrap.KINDS:
+            return errwrap.features(case, io)
         fs = list(case.get('feats', []))
         fs.append('kind:' + case['kind'] + (':' + case['sub'] if case.get('sub') else ''))
         for b, o in zip(builds_of(case), io['builds']):
@@ -1348,6 +1365,8 @@ class C12(Prop):
         return sorted(set(fs))
 
     def render(self, case):
+        if case['kind'] in errwrap.KINDS:
+            return '\n'.join(errwrap.render(case))
         bs = builds_of(case)
         out = []
         for i, b in enumerate(bs):
@@ -1356,6 +1375,8 @@ class C12(Prop):
         return '\n'.join(out)
 
     def shrink(self, case):
+        if case['kind'] in errwrap.KINDS:
+            return list(errwrap.shrink(case))
         out = []
         def used(b, name):
             txt = code_text(b) + ' ' + ' '.join(c for _, c in b.get('derived', []))
